@@ -76,7 +76,14 @@ C09_Listing == \A y \in DOMAIN E.listed :
                  /\ SetOf(E.listed[y]) = {t \in TasksOf(U) : Has(ms'.store, t) /\ U.typ[t] = y}
                  /\ NoDup(E.listed[y])
 
-Names == {"C03_ExecutesExactlyWhatIsNeeded", "C03_NoRunOnHit", "C06_NoRunOnHit", "C06_LoadReturnsStored", "C06_MetaPreserved", "C06_CachedAfterRun",
+(* cached_tasks is the map's key set, per type and for one call naming every type in either order (twins: the   *)
+(* listing de-duplication of equal tasks is C09's business, the universe of twins is left to C09_Listing)       *)
+Stored == {t \in TasksOf(U) : Has(ms'.store, t)}
+C08_Listing == /\ \A y \in DOMAIN E.listed : SetOf(E.listed[y]) = {t \in Stored : U.typ[t] = y} /\ NoDup(E.listed[y])
+               /\ "listed_all" \in DOMAIN E => /\ SetOf(E.listed_all) = Stored /\ NoDup(E.listed_all)
+                                               /\ SetOf(E.listed_rev) = Stored /\ NoDup(E.listed_rev)
+
+Names == {"C08_Listing", "C03_ExecutesExactlyWhatIsNeeded", "C03_NoRunOnHit", "C06_NoRunOnHit", "C06_LoadReturnsStored", "C06_MetaPreserved", "C06_CachedAfterRun",
           "C08_RunExecutesWhatItNeeds", "C08_MapEvolution", "C08_EntryValues", "C08_NothingElseStored", "C09_Listing"}
 Holds(c) ==
   CASE c = "C03_ExecutesExactlyWhatIsNeeded" -> C03_ExecutesExactlyWhatIsNeeded [] c = "C03_NoRunOnHit" -> C03_NoRunOnHit
@@ -84,7 +91,7 @@ Holds(c) ==
     [] c = "C06_MetaPreserved" -> C06_MetaPreserved [] c = "C06_CachedAfterRun" -> C06_CachedAfterRun
     [] c = "C08_RunExecutesWhatItNeeds" -> C08_RunExecutesWhatItNeeds [] c = "C08_MapEvolution" -> C08_MapEvolution
     [] c = "C08_EntryValues" -> C08_EntryValues [] c = "C08_NothingElseStored" -> C08_NothingElseStored
-    [] c = "C09_Listing" -> C09_Listing
+    [] c = "C09_Listing" -> C09_Listing [] c = "C08_Listing" -> C08_Listing
 
 ASSUME \A i \in 1..Len(Traces) : TLCSet(i, [fails |-> {}, reached |-> 0])
 
